@@ -107,6 +107,9 @@ UNITS = [
       ("BASETAG_MKSPECIAL_100", "BASETAG(MKSPECIALTAG(100))"), ("IS_SPECIAL_MKSPECIAL_100", "SPECIALTAG(MKSPECIALTAG(100)) ? 1 : 0"),
       ("IS_SPECIAL_100", "SPECIALTAG(100) ? 1 : 0"), ("EXTENDED_TAG_BIT", "0x8000"),
       ("H4_OP_UNKNOWN_", "H4_OP_UNKNOWN"), ("FILE_END_DIRTY_", "FILE_END_DIRTY"), ("DDLIST_DIRTY_", "DDLIST_DIRTY")], []),
+    # C16 function level (Props/C16Fn): the codes of last_op, the dirty bit HP_read consults, fseek's whence
+    ("Hpio", '#include "hdf_priv.h"\n#include "hfile_priv.h"\n',
+     ["H4_OP_UNKNOWN", "H4_OP_SEEK", "H4_OP_WRITE", "H4_OP_READ", "FILE_END_DIRTY", ("SEEK_SET_", "SEEK_SET"), ("FAIL_NEG", "-(FAIL)")], []),
     ("Mcache", '#include "hdf_priv.h"\n#include "mcache_priv.h"\n', ["HASHSIZE","DEF_PAGESIZE","DEF_MAXCACHE","MCACHE_DIRTY","MCACHE_PINNED","ELEM_READ","ELEM_WRITTEN","ELEM_SYNC"], []),
     # C05 bit I/O, n-bit coder, skipping Huffman coder (private macros and static tables of the .c files)
     ("Hbitio", '#include "hdf_priv.h"\n#include "%s/hbitio.c"\n' % HS,
@@ -421,6 +424,13 @@ FNUNITS = [
      {"ignore_calls": ["HEclear", "HEPclear", "HEpush"], "twos_complement_bitops": True, "wrap_int_conv": True,
       "fragments": {"GRIupdatemeta_id": {"of": "GRIupdatemeta", "from": "INT32ENCODE(p, img_ptr->img_dim.xdim)",
                                          "to": "UINT16ENCODE(p, img_ptr->img_dim.comp_ref)"}}}),
+    # C16: the physical I/O layer.  HI_SEEK / HI_READ_AVAIL / HI_WRITE are translated in their expanded form (fseek / fread / ferror / fwrite):
+    # every stdio call is a request whose RESULT is the next cell of the tape `io_res` (so the theorems quantify over every outcome of every
+    # call) and which is appended, with its result, to `io_log`; clearerr only touches the stream's error indicator, i.e. the answers of
+    # ferror, which are arbitrary already.  fileop_t is an enum (last_op).  The (int32) of fread's size_t result wraps.
+    ("Hfile", "hdf/src/hfile.c", ["HPseek", "HP_read", "HP_write", "HIextend_file", "HPgetdiskblock", "HPfreediskblock"],
+     {"ignore_calls": ["HEclear", "HEPclear", "HEpush", "clearerr"], "wrap_int_conv": True, "int_types": {"fileop_t": [False, 32]},
+      "io": {"fseek": "stdio_fseek", "fread": "stdio_fread", "fwrite": "stdio_fwrite", "ferror": "stdio_ferror"}}),
 ]
 
 
